@@ -27,7 +27,7 @@ import (
 func init() {
 	fw.Register(&fw.Check{
 		ID: "C03", Level: "model_checking",
-		Rule:   "(a) environment-answer DFS over map-iteration orders: every `range` over a map in the library (found by the typed instrumenter: 4 sites today) is an explicit choice point; for multi-fault / multi-entry documents (2-3 faulty macros, 2-3 unused Path properties, 3 enums used by 3 types, their pairwise combinations, every single pool block; and every single-file case of the shared streams: pool documents in several orders, all sequences of <= 2 directive variants, paste graphs, 2-3 simultaneous instances of every fault kind about named things, thorough: corpus and names) ALL permutations at every choice point are executed (full product up to 20000 executions per document, beyond that every execution with <= 2 choice points departing from the canonical order) and verdict, message, index, line, trace and JSON bytes must be identical; (a') ALL sequences of three runs over 4 projects x 6 option lists in which the option values are shared between the runs, against the same runs with freshly made option values; (b) every project run twice in one process; (c) every project run in two fresh processes; (d) every ordered pair (A, B) of a 34-project set (accepted and rejected, same file names with LF / CRLF / CR content, includes with equal relative names) run A then B in one process: B's result must equal B's result in a fresh process; non-trivial = execution with at least one choice point holding >= 2 keys, or a pair; distinct = distinct (document, choice vector) and pairs",
+		Rule:   "(a) environment-answer DFS over map-iteration orders: every `range` over a map in the library (found by the typed instrumenter: 4 sites today) is an explicit choice point; for multi-fault / multi-entry documents (2-3 faulty macros, 2-3 unused Path properties, 3 enums used by 3 types, their pairwise combinations, every single pool block; and 2-3 included files of identical layout each holding the same fault; every single-file case of the shared streams: pool documents in several orders, all sequences of <= 2 directive variants, paste graphs, 2-3 simultaneous instances of every fault kind about named things, thorough: corpus and names) ALL permutations at every choice point are executed (full product up to 20000 executions per document, beyond that every execution with <= 2 choice points departing from the canonical order) and verdict, message, index, line, trace and JSON bytes must be identical; (a') ALL sequences of three runs over 4 projects x 6 option lists in which the option values are shared between the runs, against the same runs with freshly made option values; (b) every project run twice in one process; (c) every project run in two fresh processes; (d) every ordered pair (A, B) of a 34-project set (accepted and rejected, same file names with LF / CRLF / CR content, includes with equal relative names) run A then B in one process: B's result must equal B's result in a fresh process; non-trivial = execution with at least one choice point holding >= 2 keys, or a pair; distinct = distinct (document, choice vector) and pairs",
 		Assume: []string{"map iterations inside the pinned schema library are not instrumented (only this repository's packages are); interference between projects processed concurrently is C16's harness H3"},
 		Run:    runC03, QuickCap: 10 * time.Minute, ThoroughCap: 40 * time.Minute,
 	})
@@ -247,6 +247,71 @@ func runC03(c *fw.Ctx) {
 		}
 		exploreOrders(c, sc.stream+":"+sc.label, sc.proj.Files[sc.proj.Root], limit/10, false)
 	})
+
+	// the same fault in several included files of identical layout
+	{
+		dirM := drv.NewDir(fw.Scratch("c03m"))
+		for _, sc := range multiInstanceProjects() {
+			if !c.Next() {
+				continue
+			}
+			runP := func(choices []int) (drv.Outcome, []choicePoint) {
+				var trace []choicePoint
+				vdet.SetChooser(func(site string, n int) []int {
+					i := len(trace)
+					trace = append(trace, choicePoint{site, n})
+					if i < len(choices) && choices[i] != 0 {
+						return lehmer(choices[i]%factorial(n), n)
+					}
+					return nil
+				})
+				defer vdet.SetChooser(nil)
+				o, _ := dirM.Run(sc.proj, sc.opt, true)
+				return o, trace
+			}
+			base, trace := runP(nil)
+			baseD := digestOutcome(base, "")
+			c.Count("evaluations", 1)
+			var rec func(vec []int, pos int)
+			rec = func(vec []int, pos int) {
+				if pos == len(trace) {
+					nonzero := false
+					for _, v := range vec {
+						if v != 0 {
+							nonzero = true
+						}
+					}
+					if !nonzero {
+						return
+					}
+					c.Count("evaluations", 1)
+					c.Distinct(sc.label + fmt.Sprint(vec))
+					o, _ := runP(vec)
+					if d := digestOutcome(o, ""); d != baseD {
+						if fw.Confirm(func() bool { o2, _ := runP(vec); return digestOutcome(o2, "") != baseD }) {
+							site := ""
+							for i, v := range vec {
+								if v != 0 && i < len(trace) {
+									site = trace[i].site
+								}
+							}
+							c.Violate("order-dependent-result", "C03:map-order:"+site, fmt.Sprintf("project %s: with iteration order %v at the map ranges %v the result is %s, with the canonical order %s", sc.label, vec, trace, o.Short(), base.Short()),
+								map[string]interface{}{"project": sc.proj, "choices": append([]int{}, vec...), "choice_points": fmt.Sprint(trace)})
+						}
+					}
+					return
+				}
+				for v := 0; v < factorial(trace[pos].n) && v < 720; v++ {
+					rec(append(vec, v), pos+1)
+				}
+			}
+			if len(trace) <= 4 {
+				rec(nil, 0)
+			}
+		}
+		dirM.Close()
+		os.RemoveAll(filepath.Dir(dirM.Path))
+	}
 
 	// (a') option values are values: one option value handed to many projects, alone or next to
 	// others, must behave every time like a freshly made one. ALL sequences of three runs over
